@@ -79,6 +79,10 @@ def _affine(np, case):
     k = case["akind"]
     scales = 10 ** g.uniform(-3, 3, size=3) if k in ("rot_aniso", "general", "diag") \
         else 10 ** g.uniform(-1, 1) * np.ones(3)
+    if case["aseed"] % 4 == 0:
+        # microscopy: voxels from a few nanometres to a micrometre (in the file's mm)
+        scales = scales / np.abs(scales) * 10 ** g.uniform(-5.7, -3, size=3) \
+            if k in ("rot_aniso", "general", "diag") else 10 ** g.uniform(-5.7, -3) * np.ones(3)
 
     def rot():
         q, r = np.linalg.qr(g.normal(size=(3, 3)))
@@ -109,6 +113,8 @@ def _affine(np, case):
     A = np.eye(4)
     A[:3, :3] = M
     A[:3, 3] = g.normal(size=3) * 10 ** g.uniform(-2, 4)
+    if case["aseed"] % 4 == 0:
+        A[:3, 3] = g.normal(size=3) * 10 ** g.uniform(-4, 1)
     return A
 
 
@@ -193,6 +199,7 @@ def run_case(case):
         img.header.set_xyzt_units(xyz=unit)
     top = tempfile.mkdtemp(prefix="c16-")
     obs = {"infos": 0, "voxels_checked": 0, "vias": {case["via"]: 1},
+           "voxel_volume_below_1e_10_mm3": int(abs(np.linalg.det(A[:3, :3])) < 1e-10),
            "headers_with_differing_qform_and_sform": int(case["aseed"] % 5 == 0),
            "akinds": {case["akind"]: 1}, "imperfect_status": 0, "sharding_valid": 0,
            "sharding_malformed_refused": 0, "negative_det": 0, "worst_rel_err_e16": 0}
@@ -411,6 +418,7 @@ def gates(obs, tier):
         "all_affine_kinds": len(obs.get("akinds", {})) == 7,
         "library_and_command_line": len(obs.get("vias", {})) == 2,
         "voxels_checked": obs.get("voxels_checked", 0) > 1000,
+        "sub_micrometre_voxels": obs.get("voxel_volume_below_1e_10_mm3", 0) > 100,
         "headers_with_differing_qform_and_sform": obs.get(
             "headers_with_differing_qform_and_sform", 0) > 100,
         "headers_declaring_a_spatial_unit": obs.get("headers_declaring_a_spatial_unit", 0) > 100,
